@@ -19,6 +19,7 @@ use crate::scenario::*;
 /// finding F6 (decided under C03); the stack profiles do not sample it.
 pub fn falsified_always(pf: &PatForm, model: &Model, w_space: &Space, link: Link) -> bool {
     use wax::Program;
+    let pf = &crate::exec::subst_pattern(pf, DUMMY_ROOT);
     let globs: Vec<wax::Glob> = pf
         .texts()
         .iter()
@@ -83,18 +84,7 @@ pub fn layers(
             let mut pf = PatForm::Text("**/zz".to_string());
             for _ in 0..6 {
                 let cand = g.not_pattern(model, &space.start, &mut stats.rejections);
-                let cand = if w_rooted(w) {
-                    let aimed = root_prefix_not(&cand);
-                    if matches!(crate::exec::guarded(|| reference_pattern(&aimed).is_ok()), Ok(true)) {
-                        aimed
-                    }
-                    else {
-                        cand
-                    }
-                }
-                else {
-                    cand
-                };
+                let cand = aim_at_rooted(g, &w.source, cand);
                 if !falsified_always(&cand, model, &Space::of(w, DUMMY_ROOT), w.link) {
                     pf = cand;
                     break;
@@ -141,8 +131,26 @@ pub fn layers(
     out
 }
 
-fn w_rooted(w: &Walker) -> bool {
-    matches!(w.source, Source::Glob { rooted: true, .. })
+/// For a rooted glob walk the root-relative path of an entry is its whole absolute path, which no
+/// relative negation can match: aim the negation either by rooting it at the world root (`$R/...`,
+/// keeps a bounded depth bounded) or by prefixing a tree wildcard.
+pub fn aim_at_rooted(g: &mut Gen, source: &Source, pf: PatForm) -> PatForm {
+    if !matches!(source, Source::Glob { rooted: true, .. }) {
+        return pf;
+    }
+    let aimed = if g.rng.chance(6, 10) {
+        pf.map_texts(&mut |t: &str| if t.is_empty() { R.to_string() } else { format!("{}/{}", R, t) })
+    }
+    else {
+        root_prefix_not(&pf)
+    };
+    let probe = crate::exec::subst_pattern(&aimed, DUMMY_ROOT);
+    if matches!(crate::exec::guarded(|| reference_pattern(&probe).is_ok()), Ok(true)) {
+        aimed
+    }
+    else {
+        pf
+    }
 }
 
 /// For a rooted glob walk the root-relative path of an entry is its whole absolute path, which no
@@ -249,8 +257,7 @@ pub struct Expect {
 
 /// Evaluates the layer stack over U's feed. Verdicts are functions of the entry's path only, so
 /// the result is invariant under permutation of the layers by construction.
-pub fn expect(layers: &[Layer], u: &UFeed, cwd_unused: &str) -> Result<Expect, HarnessError> {
-    let _ = cwd_unused;
+pub fn expect(layers: &[Layer], u: &UFeed, root_text: &str) -> Result<Expect, HarnessError> {
     let n = u.entries.len();
     let rels: Vec<String> = u.entries.iter().map(|e| e.rel.clone()).collect();
     let below = |j: usize, d: usize| is_below(&u.entries[j].wp, &u.entries[d].wp);
@@ -268,6 +275,7 @@ pub fn expect(layers: &[Layer], u: &UFeed, cwd_unused: &str) -> Result<Expect, H
                     .collect(),
             ),
             Layer::Not(pf) => {
+                let pf = &crate::exec::subst_pattern(pf, root_text);
                 let ms = reference_matches(pf, &rels).map_err(HarnessError)?;
                 // alternatives that claim to be always exhaustive (public query)
                 let always: Vec<wax::Glob> = pf
